@@ -195,6 +195,32 @@ def generate():
             "    /// recorder standing in for GenericCloud::connect (which starts a handshake and changes neither peers nor own_addresses)\n"
             "    fn connect(&mut self, addrs: &[SocketAddr]) -> Result<(), Error> {\n        if !addrs.is_empty() {\n            self.dialled.push(addrs[0]);\n        }\n        Ok(())\n    }\n"
             + ctp + "\n}\n")
+    # handle_interface_data: the routing decision (match on the table's answer), over a projection of the node
+    hid = extract_item(cloud, r"^    pub fn handle_interface_data\s*\(")
+    rt = None
+    if hid:
+        mm = re.search(r"match self\.table\.lookup\(dst\) \{", hid)
+        rt = extract_item(hid[mm.start():], r"match self\.table\.lookup\(dst\) ") if mm else None
+    rt = need(rt, "routing decision `match self.table.lookup(dst)` in GenericCloud::handle_interface_data", "{ let _ = (dst, data); }")
+    if not re.search(r"pub const MESSAGE_TYPE_DATA: u8 = 0;", msgs):
+        problems.append("messages.rs: MESSAGE_TYPE_DATA is no longer `u8 = 0`")
+    out += ("\npub use crate::messages::MESSAGE_TYPE_DATA;\nimpl std::fmt::Display for SocketAddr {\n    fn fmt(&self, _f: &mut std::fmt::Formatter<'_>) -> std::fmt::Result {\n        Ok(())\n    }\n}\npub fn addr_nice(addr: SocketAddr) -> SocketAddr {\n    addr\n}\n"
+            "pub struct XData {\n    pub n: usize,\n}\nimpl XData {\n    pub fn len(&self) -> usize {\n        self.n\n    }\n}\n"
+            "pub struct XLookup {\n    pub answer: Option<SocketAddr>,\n    pub asked: u8,\n    pub removed: smallvec::ivec::IVec<SocketAddr, 2>,\n}\n"
+            "impl XLookup {\n    /// stands in for ClaimTable::lookup (decided under C11 on the real table): answers what the harness prepared\n"
+            "    pub fn lookup(&mut self, _dst: crate::types::Address) -> Option<SocketAddr> {\n        self.asked += 1;\n        self.answer\n    }\n"
+            "    pub fn remove_claims(&mut self, addr: SocketAddr) {\n        self.removed.push(addr);\n    }\n}\n"
+            "pub struct XTraffic {\n    pub dropped_calls: u8,\n    pub dropped_bytes: usize,\n}\n"
+            "impl XTraffic {\n    pub fn count_dropped_payload(&mut self, bytes: usize) {\n        self.dropped_calls += 1;\n        self.dropped_bytes = bytes;\n    }\n}\n"
+            "pub struct XRouter {\n    pub table: XLookup,\n    pub peers: crate::vstd::collections::HashMap<SocketAddr, XPeerId>,\n    pub broadcast: bool,\n"
+            "    pub traffic: XTraffic,\n    pub sent: smallvec::ivec::IVec<(SocketAddr, u8), 2>,\n    pub broadcasts: smallvec::ivec::IVec<u8, 2>,\n"
+            "    pub connects: smallvec::ivec::IVec<SocketAddr, 2>,\n}\nimpl XRouter {\n"
+            "    /// recorders standing in for send_msg / broadcast_msg / connect_sock (socket I/O and handshake start)\n"
+            "    fn send_msg(&mut self, addr: SocketAddr, type_: u8, _data: &mut XData) -> Result<(), Error> {\n        self.sent.push((addr, type_));\n        Ok(())\n    }\n"
+            "    fn broadcast_msg(&mut self, type_: u8, _data: &mut XData) -> Result<(), Error> {\n        self.broadcasts.push(type_);\n        Ok(())\n    }\n"
+            "    fn connect_sock(&mut self, addr: SocketAddr) -> Result<(), Error> {\n        self.connects.push(addr);\n        Ok(())\n    }\n"
+            "    pub fn route_slice(&mut self, dst: crate::types::Address, data: &mut XData) -> Result<(), Error> {\n        "
+            + rt + "\n        Ok(())\n    }\n}\n")
     write_if_changed(os.path.join(K.GEN, "extracted.rs"), out)
     # 2b. the cipher-list part of a handshake message: writer arm of InitMsg::write_to and reader arm of InitMsg::read_from,
     #     wrapped as associated functions of InitMsg (included into crypto::init::verif, so Self:: and private items resolve)
